@@ -106,6 +106,8 @@ class Obs:
                         raise ValueError("Unsorted idx for idl[%s]" % (name))
                     self.idl[name] = idx
                 elif isinstance(idx, (list, np.ndarray)):
+                    if np.asarray(idx).dtype.kind == 'u':
+                        idx = np.asarray(idx).astype(np.int64)
                     dc = np.unique(np.diff(idx))
                     if np.any(dc < 0):
                         raise ValueError("Unsorted idx for idl[%s] at position %s" % (name, ' '.join(['%s' % (pos + 1) for pos in np.where(np.diff(idx) < 0)[0]])))
